@@ -11,7 +11,9 @@ A graph is a list of [s, p, o] of such terms.
 """
 from __future__ import annotations
 
+import io as io_mod
 import logging
+import os
 import warnings
 
 from .core import CaseTimeout, import_rdflib
@@ -153,33 +155,98 @@ def isomorphic(A, B):
 
 
 # ---------------------------------------------------------------- driver
-def roundtrip(graph, fmt, base=None, bind=None, extra=None):
-    """-> (verdict, detail); verdict 'ok' | 'differs' | 'ser-exc' | 'parse-exc'"""
+IO_MODES = ["path", "file", "bytesio", "bytes"]
+_IO_DIR = os.path.join(os.path.dirname(os.path.dirname(os.path.abspath(__file__))), "build", "c03_io")
+_io_counter = [0]
+
+
+def roundtrip(graph, fmt, base=None, bind=None, extra=None, io=None):
+    """-> (verdict, detail); verdict 'ok' | 'differs' | 'ser-exc' | 'parse-exc'.
+    io=None: serialise to a str and parse data=str.  io in IO_MODES: serialise to a real file
+    (destination=path, UTF-8) and read the bytes back from the path / an open binary file / a BytesIO / bytes."""
     g = build(graph, bind)
     hext = fmt == "hext"
     kw = dict(extra or {})
     if base is not None:
         kw["base"] = base
+    pkw = {} if base is None else {"publicID": base}
+    pfmt = PARSER_OF.get(fmt, fmt)
+    path = None
     try:
-        data = g.serialize(format=fmt, **kw)
-    except CaseTimeout:
-        raise
-    except Exception as e:  # noqa: BLE001
-        return "ser-exc", f"{type(e).__name__}: {e}"[:300]
-    try:
-        g2 = Graph()
-        # the document is read back the way it was written: same base (Turtle and RDF/XML also carry it inside)
-        g2.parse(data=data, format=PARSER_OF.get(fmt, fmt), **({} if base is None else {"publicID": base}))
-    except CaseTimeout:
-        raise
-    except Exception as e:  # noqa: BLE001
-        return "parse-exc", f"{type(e).__name__}: {e}"[:300] + " | " + repr(data)[:400]
+        try:
+            if io is None:
+                data = g.serialize(format=fmt, **kw)
+            else:
+                os.makedirs(_IO_DIR, exist_ok=True)
+                _io_counter[0] += 1
+                path = os.path.join(_IO_DIR, "%d_%d.%s" % (os.getpid(), _io_counter[0], fmt.replace("-", "")))
+                g.serialize(destination=path, format=fmt, encoding="utf-8", **kw)
+                with open(path, "rb") as fh:
+                    data = fh.read()
+        except CaseTimeout:
+            raise
+        except Exception as e:  # noqa: BLE001
+            return "ser-exc", f"{type(e).__name__}: {e}"[:300]
+        try:
+            g2 = Graph()
+            # the document is read back the way it was written: same base (Turtle and RDF/XML also carry it inside)
+            if io is None or io == "bytes":
+                g2.parse(data=data, format=pfmt, **pkw)
+            elif io == "path":
+                g2.parse(path, format=pfmt, **pkw)
+            elif io == "file":
+                with open(path, "rb") as fh:
+                    g2.parse(fh, format=pfmt, **pkw)
+            else:
+                g2.parse(io_mod.BytesIO(data), format=pfmt, **pkw)
+        except CaseTimeout:
+            raise
+        except Exception as e:  # noqa: BLE001
+            return "parse-exc", f"{type(e).__name__}: {e}"[:300] + " | " + repr(data)[:400]
+    finally:
+        if path is not None:
+            try:
+                os.unlink(path)
+            except OSError:
+                pass
     A = keys_of_abstract(graph, hext)
     B = keys_of_graph(g2, hext)
     if isomorphic(A, B):
         return "ok", ""
-    return "differs", "missing " + repr(sorted(A - B, key=repr)[:3]) + " extra " + repr(sorted(B - A, key=repr)[:3]) \
+    return "differs", "missing " + repr(sorted(A - B, key=repr)[:3])[:600] + " extra " + repr(sorted(B - A, key=repr)[:3])[:600] \
         + " | " + repr(data)[:600]
+
+
+PAD_CHARS = ["\u00e9", "\u20ac", "\U0001F600"]   # 2-, 3- and 4-byte UTF-8
+
+
+def pad_graph(rng, graph):
+    """Pad literal values (plain, language-tagged, xsd:string or the custom datatype - nothing a parser normalises) with
+    runs of multi-byte characters of random lengths until the document is some 3-10 kB, so that the 2048 / 4096 / 8192 ...
+    byte and character offsets of any chunked reader fall inside multi-byte sequences."""
+    graph = [list(t) for t in graph]
+    slots = [i for i, t in enumerate(graph) if t[2][0] == "L" and t[2][3] in (None, XSD + "string", "http://e/dt")]
+    if not slots:
+        graph.append([I("http://e/a"), I("http://e/p"), L("x")])
+        slots = [len(graph) - 1]
+    target = rng.randrange(3000, 10000)
+    total = 0
+    while total < target:
+        i = rng.choice(slots)
+        o = list(graph[i][2])
+        run = "".join(rng.choice(PAD_CHARS) * rng.randrange(1, 400) if rng.random() < 0.8 else "x" * rng.randrange(1, 200)
+                      for _ in range(rng.choice([1, 2, 3])))
+        o[1] = o[1] + run if rng.random() < 0.7 else run + o[1]
+        graph[i] = [graph[i][0], graph[i][1], o]
+        total += len(run.encode("utf-8"))
+    # de-duplicate (padding can make two triples equal)
+    seen, res = set(), []
+    for t in graph:
+        k = repr(t)
+        if k not in seen:
+            seen.add(k)
+            res.append(t)
+    return res
 
 
 # ---------------------------------------------------------------- graph generator
@@ -708,6 +775,8 @@ def triggers(graph, fmt, base=None, bind=None):
             out.append("F15l")
         if unreachable_bnode_px(graph) or bnode_subject_referenced_twice(graph):
             out.append("F15m")
+        if any(pfx == "" for pfx, _ in (bind or [])) and any(x[3] == RDFNS + "XMLLiteral" and "<" in x[1] for x in lits):
+            out.append("F15p")
     if fmt == "json-ld":
         if unreachable_bnode(graph):
             out.append("F15i")
@@ -1116,7 +1185,7 @@ class TtlString(Suite):
 
 # ---------------------------------------------------------------- graph level: conformance only
 TRIGGER_NUM = {"F15": 1, "F15b": 2, "F15c": 3, "F15d": 4, "F15e": 5, "F15f": 6, "F15g": 7, "F15h": 8,
-               "F15i": 9, "F15j": 10, "F15k": 11, "F15l": 12, "F15m": 13, "F15n": 14, "F15o": 15}
+               "F15i": 9, "F15j": 10, "F15k": 11, "F15l": 12, "F15m": 13, "F15n": 14, "F15o": 15, "F15p": 16}
 BINDS = [None, None, [["ex", "http://e/"], ["ns", "http://e/ns#"]], [["", "http://e/"]], [["ex", "http://e/ns#"]]]
 BASES = [None, None, None, "http://e/", "http://e/", "http://other.org/"]
 
@@ -1141,13 +1210,19 @@ class RoundTrip(Suite):
 
     def gen(self, rng, i):
         graph, tags = gen_graph(rng)
-        return {"fmt": FORMATS[i % len(FORMATS)], "graph": graph, "base": rng.choice(BASES), "bind": rng.choice(BINDS),
-                "tags": tags}
+        case = {"fmt": FORMATS[i % len(FORMATS)], "graph": graph, "base": rng.choice(BASES), "bind": rng.choice(BINDS),
+                "tags": tags, "io": None}
+        # a quarter of the cases go through a real file of 3-10 kB and a binary source
+        if (i // len(FORMATS)) % 4 == 3:
+            case["graph"] = pad_graph(rng, graph)
+            case["io"] = IO_MODES[(i // (4 * len(FORMATS))) % len(IO_MODES)]
+            case["tags"] = tags + ["io_" + case["io"]]
+        return case
 
     def run_impl(self, case):
         if case["fmt"] in XML_FAMILY and xml_inexpressible(case["graph"]):
             return 1   # RDF/XML cannot express a predicate that is no XML name: outside the property
-        v, _ = roundtrip(case["graph"], case["fmt"], case["base"], case["bind"])
+        v, _ = roundtrip(case["graph"], case["fmt"], case["base"], case["bind"], io=case.get("io"))
         return 1 if v == "ok" else 0
 
     def on_timeout(self, case):
@@ -1179,13 +1254,19 @@ class RoundTrip(Suite):
         for i in range(len(g)):
             if len(g) > 1:
                 yield dict(case, graph=g[:i] + g[i + 1:])
+        for i, t in enumerate(g):          # long (padded) literals: cut runs out of the middle first
+            x = t[2]
+            if x[0] == "L" and len(x[1]) > 40:
+                n = len(x[1])
+                for a, b in ((n // 4, n // 2), (n // 2, 3 * n // 4), (n // 8, n // 4), (0, n // 8), (7 * n // 8, n)):
+                    yield dict(case, graph=g[:i] + [[t[0], t[1], ["L", x[1][:a] + x[1][b:], x[2], x[3]]]] + g[i + 1:])
         if case["base"] is not None:
             yield dict(case, base=None)
         if case["bind"] is not None:
             yield dict(case, bind=None)
         for i, t in enumerate(g):
             for j, x in enumerate(t):
-                if x[0] == "L" and len(x[1]) > 1:
+                if x[0] == "L" and 1 < len(x[1]) <= 40:
                     for k in range(len(x[1])):
                         t2 = list(t)
                         t2[j] = ["L", x[1][:k] + x[1][k + 1:], x[2], x[3]]
